@@ -115,10 +115,9 @@ pub fn observe(pool: &BufferPool, ring_fd: RawFd) -> Result<PoolObs, String> {
         let head = ring_head(ring_fd)?;
         o.tail = tail;
         o.head = head;
-        let cnt = tail.wrapping_sub(head);
-        if cnt > len {
-            return Err(format!("ring holds {cnt} entries > {len}"));
-        }
+        // more entries than the ring has slots can only come from providing a buffer twice: still report
+        // what the kernel would consume (entries are then seen more than once)
+        let cnt = tail.wrapping_sub(head).min(len.saturating_mul(2));
         for k in 0..cnt {
             let idx = (head.wrapping_add(k) & (len - 1)) as usize;
             let e = unsafe { base.add(idx * 16) };
